@@ -246,8 +246,8 @@ def compare(prefix, cues, doc, acc, case, frames=True):
       continue
     for (c, et, syn), (_c2, ot) in zip(exp, o["chars"]):
       if c != "\n" and et != ot:
-        acc.violation(f"{ID}.tags", f"missing={_kinds(et - ot)},extra={_kinds(ot - et)},syntax={'+'.join(sorted(syn)) or '-'}",
-                      case, observed=sorted(ot), expected=sorted(et), note=f"cue {k}: style flags of character {c!r} in {etext!r}")
+        acc.violation(f"{ID}.tags", f"missing={_kinds(et - ot)},extra={_kinds(ot - et)}", case, observed=sorted(ot), expected=sorted(et),
+                      note=f"cue {k}: style flags of character {c!r} in {etext!r} (enclosing tag syntaxes: {'+'.join(sorted(syn)) or '-'})")
         outcome = "flags-differ"
         break
   if frames and outcome == "agrees" and cues:
